@@ -578,9 +578,29 @@ def walker_siblings_rule(ctx, facts, cfg, rid):
                         dst = s['place']['local']
                         used_by_or = any(b2['term']['k'] == 'call' and (F.call_path(b2['term']) or '').endswith('Option::<T>::or') and
                                          any(F.op_local(a) == dst for a in b2['term']['args']) for _, b2 in F.blocks(f))
-                        fin.append('via-or' if used_by_or else 'direct-overwrite')
+                        kind_ = 'via-or' if used_by_or else 'direct-overwrite'
+                        if not used_by_or:
+                            # `if final_offset.is_none() { final_offset = Some(offset + 2) }` keeps the first one just as well
+                            dom_ = F.dominators(f)
+                            for gi, gb in F.blocks(f):
+                                gt = gb['term']
+                                if gt['k'] != 'switch':
+                                    continue
+                                ge_ = F.expr(f, defs, gt['discr'])
+                                none_edges = []
+                                if ge_[0] == 'call' and str(ge_[1]).endswith('Option::<T>::is_none'):
+                                    none_edges = [gt['otherwise']] if all(v == 0 for v, _ in gt['targets']) else [tb for v, tb in gt['targets'] if v == 1]
+                                elif ge_[0] == 'call' and str(ge_[1]).endswith('Option::<T>::is_some'):
+                                    none_edges = [tb for v, tb in gt['targets'] if v == 0]
+                                elif ge_[0] == 'discr':
+                                    none_edges = [tb for v, tb in gt['targets'] if v == 0]
+                                if any(ne == bi or ne in dom_.get(bi, ()) for ne in none_edges):
+                                    kind_ = 'via-or'
+                        fin.append(kind_)
         shapes[key] = (sorted(upd), sorted(fin))
-    ok = shapes[ref] == shapes[sib] and 'direct-overwrite' not in shapes[sib][1]
+    # both walkers keep the position behind the FIRST pointer (in whichever spelling) and fall back to the running offset
+    keeps = {k: bool(v[1]) and 'direct-overwrite' not in v[1] for k, v in shapes.items()}
+    ok = (shapes[ref] == shapes[sib] or (keeps[ref] and keeps[sib])) and 'direct-overwrite' not in shapes[sib][1]
     ctx.instance(rid, 'final_offset handling: validator %s / copy %s' % (shapes[ref], shapes[sib]), ok=ok, site=facts.fn(sib)['at'])
     if not ok:
         ctx.violation(rid, sib, 'final_offset-first-pointer', 'copy_uncompressed_name updates final_offset as %s, the validator\'s walker as %s: the position returned must be the one behind the FIRST pointer of the name '
